@@ -240,5 +240,9 @@ def run(check, ctx):
     check.floor("SEG", 5)
     from . import c09_extra
     c09_extra.run(check, ctx)
-    check.undecided.append("equality of results for every partition (cache arithmetic on values beyond the "
-                           "representative partitions); buffer-protocol corner cases inside ctypes")
+    # C side: every chunking (empty pieces, in-place output) of the native mode loops gives the one-shot result
+    from . import c_modes
+    c_modes.mode_tables(check, ctx, ("ctr", "cfb", "ofb", "cbc", "ecb"), rule="SEG-c")
+    check.floor("SEG-c", 5)
+    check.undecided.append("equality of results for every partition beyond the representative partitions; "
+                           "buffer-protocol corner cases inside ctypes; OCB/GCM/Poly1305 native loops")
